@@ -592,6 +592,11 @@ func c10AcceptReject(c *fw.Ctx, lex []string) {
 		if ae, ok := err.(*cerr.ApplicationError); !ok || ae.Code == "" {
 			c.Violation("template-rejection-without-code", "SetTemplate(%q): error %v carries no code", text, err)
 		}
+		// the same malformed text submitted again to the same instance must be rejected again
+		var err2 error
+		if pv := fw.Try(func() { err2 = t.SetTemplate(text) }); pv != nil || err2 == nil {
+			c.Violation("malformed-template-accepted-on-resubmission", "SetTemplate(%q) is rejected (%s) but the same instance accepts the same text when it is submitted again (panic %v)", text, errStr(err), pv)
+		}
 	case "well-formed":
 		c.Nontrivial()
 		if err != nil {
